@@ -6,6 +6,8 @@ import Rbacx.Spec.Operators
 import Rbacx.Spec.DenyByDefault
 import Rbacx.Spec.Engine
 import Rbacx.Proofs.Total
+import Rbacx.Proofs.TruthfulSpec
+import Rbacx.Proofs.Compiled
 import Rbacx.Model.RelMemo
 /-
   Driver.Main — one JSON command per input line, one JSON answer per output line.
@@ -124,7 +126,11 @@ def handle (j : Json) : Except String Json := do
       let reason := match field impl "reason" with | .str s => s | _ => "<null>"
       let c03 := Spec.c03 o cfg pol req (fieldStr impl "effect") reason
       let c11 := Spec.c11 o cfg pol req (fieldBool impl "allowed") (fieldStr impl "effect") rid pid reason obls.asList
-      pure (Json.mkObj [("model", model), ("spec_c01", c01), ("spec_c03", optB c03), ("spec_c11", optB c11)])
+      -- do the hypotheses of the C11 / C03 theorems hold of this case? (reported in the evidence: how much of the run the theorems speak about)
+      let hypC11 := withinSchemaB o cfg pol req
+      let hypC03 := !pol.hasKey "policies" && (pol.get "algorithm").truthy && actionOk ((condCtx o cfg req).env.get "action")
+      pure (Json.mkObj [("model", model), ("spec_c01", c01), ("spec_c03", optB c03), ("spec_c11", optB c11),
+                        ("hyp_c11", .bool hypC11), ("hyp_c03", .bool hypC03)])
   | "asgi" => do
     let cfg ← decCfg (field j "cfg") consts
     let pol ← fieldVal j "policy"
